@@ -171,8 +171,15 @@ func intersects(a, b []string) bool {
 }
 
 func (x *Exec) obligeAt(st *State, fn *ssa.Function, kind, name string, goal Term, where string, props []string) {
-	if goal.IsTrue() {
-		return
+	trivial := goal.IsTrue()
+	if trivial {
+		// contract-level obligations that the term rewriter already reduced to true are recorded as
+		// discharged by it (so that evidence counts them); implicit safety checks that fold are not
+		switch kind {
+		case "ensures", "requires", "guarantee", "invariant-entry", "invariant-preserved", "site", "stmt-binding", "tx-typestate", "sql":
+		default:
+			return
+		}
 	}
 	key := kind + "|" + name + "|" + where + "|" + goal.S + "|" + termsKey(st.pc)
 	if x.oblSeen[key] {
@@ -181,6 +188,9 @@ func (x *Exec) obligeAt(st *State, fn *ssa.Function, kind, name string, goal Ter
 	x.oblSeen[key] = true
 	x.obls = append(x.obls, &Obligation{Name: name, Kind: kind, Func: fn.String(), Pos: where, Props: props,
 		PC: append([]Term(nil), st.pc...), Goal: goal, Trace: append([]string(nil), st.trace...)})
+	if trivial {
+		x.obls[len(x.obls)-1].Result = &SolveResult{Status: "unsat", Solver: "term-rewriting"}
+	}
 }
 
 // declsFor renders the declarations needed by the given text.
@@ -257,6 +267,9 @@ func (x *Exec) Discharge(rep *FuncReport, outDir string, timeoutS, workers int) 
 	dir := filepath.Join(outDir, sanitizeFile(rep.Key))
 	_ = os.RemoveAll(dir)
 	for i, o := range rep.Obligations {
+		if o.Result != nil {
+			continue
+		}
 		q := x.queryFor(o, i)
 		wg.Add(1)
 		sem <- struct{}{}
